@@ -111,11 +111,34 @@ def _task(t):
     return acc
 
 
+def _lenient_task(chunk):
+    """Strings near valid vectors: whatever the library accepts among them is an accepted vector,
+    and what it then emits must be valid too (whether it should have been accepted is C04's)."""
+    acc = sweep.new_acc()
+    for fam, s in chunk:
+        try:
+            observe.cls_of(fam)(s)
+        except Exception:  # noqa
+            continue
+        acc["n"] += 1
+        acc["calls"] += 3
+        acc["cmp"] += 2
+        why, cv = judge(fam, s)
+        if why:
+            sweep.bad(acc, {"what": "%s(%r) is accepted and %s" % (T.CLASSNAME[fam], s, why), "kind": "emitted",
+                            "input": s, "family": fam, "signature": {"kind": "emitted", "family": fam, "lenient": True}})
+        elif T.classify(fam, s) == "ACCEPT":
+            acc["nontrivial"] += 1
+    return acc
+
+
 def builder_cases(fam):
     """Answer scripts whose outputs are checked: first / last / middle legal value everywhere."""
     tab = T.METRICS[fam]
     picks = [lambda m: [tab[m][0]], lambda m: [tab[m][-1]], lambda m: [tab[m][len(tab[m]) // 2]],
-             lambda m: [tab[m][-1].lower()]]
+             lambda m: [tab[m][-1].lower()],
+             lambda m: ["", tab[m][-1]],          # Enter first (Not Defined where legal, else re-asked)
+             lambda m: ["?", "", tab[m][0]]]
     for allm in (False, True):
         for nc in (False, True):
             for k, pick in enumerate(picks):
@@ -160,6 +183,16 @@ def run(ctx, res):
             tasks.append(("4.0", masks[lo:hi], (0, 1), (0, 2)))
         v4desc = "all subsets of size <=3 and their complements (%d)" % len(masks)
     accs = core.task_map(_task, ctx.rot(tasks))
+    from . import c04
+    near = []
+    for seed in c04.seeds(2):
+        major = {"": 2, "CVSS:3.0/": 3, "CVSS:3.1/": 3, "CVSS:4.0/": 4}[c04.split_prefix(seed)[0]]
+        cands = list(c04.field_edits(seed, small=True))
+        if len(seed) < 80:
+            cands += list(c04.char_edits(seed))
+        for t in cands:
+            near.append((T.family_of(major, t), t))
+    accs += core.task_map(_lenient_task, [near[i::32] for i in range(32)])
     # interactive builder outputs
     b = sweep.new_acc()
     for fam in T.FAMILIES:
